@@ -31,6 +31,46 @@ int main_replay(){
   return 0;
 }
 '''
+SEARCH = r'''
+/* The obligation is about the internals of the descent test, so CBMC's values (arbitrary callback outputs) do not
+ * transfer.  Replay by search over the real code: convex quadratics f(x) = L x^2 / 2 and a small grid of parameters;
+ * the returned state must not be worse than the start and not worse than with a smaller cap. */
+int main_replay(){
+  int bad = 0;
+  for (double L : {1.0, 4.0}) for (double dec : {1.25, 2.0, 3.0, 5.0}) for (double inc : {1.0, 1.5}) for (double step : {0.5, 2.0, 7.5})
+  for (double start : {1.0, -3.0}) {
+    double prev = 0.5 * L * start * start;
+    for (int cap = 0; cap <= 5; cap++) {
+      TasOptimization::GradientDescentState state({start}, step);
+      auto func = [&](const std::vector<double> &x)->double{ return 0.5 * L * x[0] * x[0]; };
+      auto grad = [&](const std::vector<double> &x, std::vector<double> &g)->void{ g[0] = L * x[0]; };
+      TasOptimization::GradientDescent(func, grad, inc, dec, cap, 1.E-9, state);
+      double fr = func(state.getX());
+      if (fr > prev + 1.E-12) {
+        if (bad < 5) std::printf("L=%g decrease=%g increase=%g stepsize=%g start=%g cap=%d: f(result)=%.17g > %.17g (start / smaller cap)\n", L, dec, inc, step, start, cap, fr, prev);
+        bad++;
+      }
+      if (fr < prev) prev = fr;
+    }
+  }
+  __CPROVER_assert(bad == 0, "C19 the returned state is no worse than the start and than the result of any smaller cap");
+  return 0;
+}
+'''
+def replay_search(prop):
+    def rp(job, ob, vals, wd):
+        hdr = "Replay by search against the real code.\nproperty %s job %s\nobligation %s: %s\nat %s" % (prop, job.name, ob["name"], ob["description"], ob["location"])
+        return RP.write_and_run(prop, job.name + "." + ob["name"], hdr, ['"TasmanianOptimization.hpp"'], SEARCH, "  main_replay();", lib="dream")
+    return rp
+
+def replay_any(prop):
+    a, s = replay_adaptive(prop), replay_search(prop)
+    def rp(job, ob, vals, wd):
+        if "tsg_rhs_term" in ob["name"] or "tsg_step" in ob["name"]:
+            return s(job, ob, vals, wd)
+        return a(job, ob, vals, wd)
+    return rp
+
 def _arr(vals, name, n, m=None):
     def get(k):
         for suf in ("l", "", "ul"):
@@ -71,13 +111,13 @@ def jobs(tier, seed, prop):
         Ri = X.Rules()
         ti, infoi = graddesc.emit_adaptive(Ri)
         out.append(Job("graddesc.adaptive.ieee", pre + '#line 1 "/verif/contracts/graddesc.c"\n' + cf.text(("text",)) + ti + cf.text(("harness",), ["h_GradientDescent_adaptive"]),
-                       "h_GradientDescent_adaptive", unwind=nit + 2, timeout=3000, backends=[["--refine-arithmetic"], ["--sat-solver", "cadical"]], functions=fl, info=infoi, replay=replay_adaptive(prop),
+                       "h_GradientDescent_adaptive", unwind=nit + 2, timeout=3000, backends=[["--refine-arithmetic"], ["--sat-solver", "cadical"]], functions=fl, info=infoi, replay=replay_any(prop),
                        bounded="dimensions <= %d, max_iterations <= %d (full unwinding), IEEE descent test" % (ndim, nit),
                        assumed=["callbacks func/grad/proj return arbitrary doubles", "computeStationarityResidual returns any value (stub)"],
                        label="GradientDescent (adaptive, projected) against F17 with the IEEE descent test"))
     out.append(Job("graddesc.adaptive", pre + '#line 1 "/verif/contracts/graddesc.c"\n' + cf.text(("text",)) + t + cf.text(("harness",), ["h_GradientDescent_adaptive"]),
                    "h_GradientDescent_adaptive", unwind=nit + 2, timeout=600 if tier == "quick" else 2400,
-                   backends=[["--refine-arithmetic"], ["--sat-solver", "cadical"]], functions=fl, info=info, replay=replay_adaptive(prop),
+                   backends=[["--refine-arithmetic"], ["--sat-solver", "cadical"]], functions=fl, info=info, replay=replay_any(prop),
                    bounded="dimensions <= %d, max_iterations <= %d (full unwinding with unwinding assertions)" % (ndim, nit),
                    assumed=["callbacks func/grad/proj return arbitrary doubles", "computeStationarityResidual is floating-point only and returns any value (stub)",
                             "R13: the descent test lhs > rhs + tol is an uninterpreted predicate in this job (F17 is proved for every outcome of the test); the thorough tier also runs the IEEE text"],
@@ -85,7 +125,7 @@ def jobs(tier, seed, prop):
     # the same unit at the smallest size: a violation that does not depend on the sizes is found quickly here
     pre_s = '#include "tsg_shim.h"\nint tsg_exc;\n#define TSG_NDIM 1\n#define TSG_NIT 2\n'
     out.append(Job("graddesc.adaptive.small", pre_s + '#line 1 "/verif/contracts/graddesc.c"\n' + cf.text(("text",)) + t + cf.text(("harness",), ["h_GradientDescent_adaptive"]),
-                   "h_GradientDescent_adaptive", unwind=4, timeout=600, backends=[["--refine-arithmetic"], ["--sat-solver", "cadical"], []], functions=fl, info=info, replay=replay_adaptive(prop),
+                   "h_GradientDescent_adaptive", unwind=4, timeout=600, backends=[["--refine-arithmetic"], ["--sat-solver", "cadical"], []], functions=fl, info=info, replay=replay_any(prop),
                    bounded="dimensions == 1, max_iterations <= 2 (full unwinding with unwinding assertions)",
                    assumed=["callbacks func/grad/proj return arbitrary doubles", "computeStationarityResidual returns any value (stub)"],
                    label="GradientDescent (adaptive, projected) against F17 at the smallest size (fast counterexamples)"))
